@@ -303,6 +303,8 @@ type prefixJob struct {
 	History History `json:"history"`
 	Ns      []int64 `json:"ns"`     // explicit prefix lengths; empty: every byte
 	Stride  int64   `json:"stride"` // with empty Ns: every Stride-th byte plus block boundaries +-1
+	From    int64   `json:"from"`   // with empty Ns: only prefix lengths in [From, To) (To = 0: no upper bound); every evaluated
+	To      int64   `json:"to"`     // prefix leaves an index database open in this process, so long sweeps are cut into chunks
 }
 
 func init() {
@@ -367,6 +369,9 @@ func cmdPrefix(args []string, w *bufio.Writer) {
 		}
 		seen := map[int64]bool{}
 		add := func(n int64) {
+			if n < job.From || (job.To > 0 && n >= job.To) {
+				return
+			}
 			if n >= 0 && n <= int64(len(full)) && !seen[n] {
 				seen[n] = true
 				ns = append(ns, n)
